@@ -77,7 +77,9 @@ def run(ctx):
         ukinds = {}
         ops = []      # (line, kind, expected rewrite or None, must be rejected)
         if True:
-            rl = [f"reenc {tid} {name} {rng.getrandbits(30)} {h}" for tid, name, h in valid for _ in range(nre) if mv.covers(tid)]
+            # one re-encoding of every value spells EVERY size-like number in the 9-byte form (seed = 0 mod 3)
+            rl = [f"reenc {tid} {name} {3 * rng.getrandbits(28) + (0 if j == 0 else rng.randrange(1, 3))} {h}"
+                  for tid, name, h in valid for j in range(nre) if mv.covers(tid)]
             ro, e = model_run(ref, mv, rl, 1)
             if e:
                 uerr.append((u.name, e))
@@ -141,6 +143,8 @@ def run(ctx):
         with lock:
             for k in st:
                 stats[k] = stats.get(k, 0) + st[k]
+            for k in ("boundary_values", "sparse_values"):
+                stats[k] = stats.get(k, 0) + src.stats.get(k, 0)
             for k, v in ukinds.items():
                 kinds[k] = kinds.get(k, 0) + v
             unit_errors.extend(uerr)
@@ -233,7 +237,7 @@ def run(ctx):
         "trusted_base": trusted_base(thm) + ["untrusted: ocaml/tl2/relax2.ml (generator of re-encodings) and lib/tl2_lib.evolve_schema (their outputs are judged by both readers)"],
         "theorems": thm["statements"], "assumptions_per_theorem": thm["assumptions"],
         "evaluations": stats["rw_ops"] + stats.get("dirty_ops", 0) + stats["evolution_ops"], "distinct_nontrivial": stats["reenc_changed"] + stats["evolution_values"],
-        "rule": "per schema and top-level type: values written in TL2 by the generated code are re-encoded by a generator of admissible "
+        "rule": "Boundary-size values are always included (<= ~30 per run): strings of length 253/254/65535/65536/65789/65790/65791 (+1 random in the windows), vectors whose body size lands on those edges, and enclosing struct bodies of exactly those sizes (top level and nested), i.e. every edge of the 1/3/9-byte size forms; per schema and top-level type: values written in TL2 by the generated code are re-encoded by a generator of admissible "
                 "re-encodings (kinds below) and read by the generated code and by the extracted model: verdict, consumed length and canonical "
                 "rewrite compared; model-free oracle: the rewrite equals the original canonical bytes and the whole input is consumed; inputs whose "
                 "outermost declared size exceeds the remaining input, and truncated inputs, must be rejected; every read is repeated into a REUSED object (one that decoded the largest value of the type before) and must give the result of a fresh object; a unit of structs with 8-20 fields and values whose non-default fields all lie before a cut (bodies ending on a presence-block boundary) is always included; schema pairs (random schema, copy with "
